@@ -371,6 +371,9 @@ func loadProgram(repo, verifDir string, cc *CheckCfg) (*ssa.Program, []*packages
 		return nil, nil, fmt.Errorf("%d package load errors (the tree does not type-check with the harness)", nerr)
 	}
 	prog, _ := ssautil.AllPackages(pkgs, ssa.InstantiateGenerics)
+	// build every function body up front: lazy per-package building races between workers
+	// (a generic instance can be visible before its body is built)
+	prog.Build()
 	return prog, pkgs, nil
 }
 
